@@ -35,7 +35,7 @@ type Case struct {
 }
 
 func genCase(t *rapid.T) Case {
-	c := Case{Tables: pgprog.GenTables(t, pgprog.AllKinds, "alice"), Reader: rapid.SampledFrom([]string{"owner", "nokeys"}).Draw(t, "reader")}
+	c := Case{Tables: pgprog.GenTables(t, pgprog.ProgKinds, "alice"), Reader: rapid.SampledFrom([]string{"owner", "nokeys"}).Draw(t, "reader")}
 	g := pgprog.NewGenState(c.Tables)
 	n := rapid.IntRange(1, 8).Draw(t, "nsteps")
 	for i := 0; i < n; i++ {
@@ -43,13 +43,18 @@ func genCase(t *rapid.T) Case {
 		// sometimes execute an earlier prepared SELECT again, after other statements went through
 		var prepared []int
 		for j, st := range c.Steps {
-			if st.Op == "select" && st.Ext {
+			// statements that can be executed twice: SELECT, UPDATE, DELETE and INSERT ... ON CONFLICT (the second execution
+			// meets the key the first one wrote)
+			if st.Ext && (st.Op == "select" || st.Op == "update" || st.Op == "delete" || (st.Op == "insert" && st.OnConflict != "")) {
 				prepared = append(prepared, j)
 			}
 		}
 		if len(prepared) > 0 && len(c.Steps) > prepared[0]+1 && rapid.IntRange(0, 3).Draw(t, fmt.Sprintf("reexec%d", i)) == 0 {
 			j := rapid.SampledFrom(prepared).Draw(t, fmt.Sprintf("reexec%d.which", i))
 			re := c.Steps[j]
+			if re.Op != "select" {
+				re.ReOp = re.Op
+			}
 			re.Op, re.Reexec = "reexec", j+1
 			re.ResultFmt = int16(rapid.IntRange(0, 1).Draw(t, fmt.Sprintf("reexec%d.rfmt", i)))
 			re.Describe = "P"
@@ -193,6 +198,10 @@ func Check(c Case) (hx.Vs, map[string]bool, bool) {
 		tb := c.Tables[st.Table]
 		if st.Op == "reexec" {
 			st.Op = "select"
+			if st.ReOp != "" {
+				st.Op = st.ReOp
+				o.class("reexec-prepared:" + st.ReOp)
+			}
 		}
 		r := pgprog.Render(c.Tables, st)
 		var rep *pgsess.Reply
@@ -205,6 +214,12 @@ func Check(c Case) (hx.Vs, map[string]bool, bool) {
 		} else if st.Ext {
 			rep, err = s.Extended(pgprog.ExtOf(st, r, fmt.Sprintf("st%d", si)))
 			o.class(fmt.Sprintf("ext/pfmt%d/rfmt%d", st.ParamFmt, st.ResultFmt))
+			if st.Declare && len(r.Params) > 0 {
+				o.class("declared-param-oids:" + st.Op)
+				if st.OnConflict != "" {
+					o.class("declared-param-oids:upsert")
+				}
+			}
 		} else {
 			rep, err = s.Simple(r.SQL)
 			o.class("simple")
@@ -663,8 +678,8 @@ func Check(c Case) (hx.Vs, map[string]bool, bool) {
 }
 
 func TestSessions(t *testing.T) {
-	R.Rule("TestSessions", "session program = generated encryptor configuration (1-2 tables, 2-5 columns of kinds plain/enc/search/mask/token/typed with envelopes, declared types, failure policies, per-column client) + 1-8 statements (INSERT with column list / schema order / multi-row / casts / RETURNING, UPDATE SET [WHERE id], SELECT star / list / aliases [WHERE id]) over the simple or the extended protocol (text/binary parameters, text/binary results, declared or inferred parameter types, optional Describe), run through acra's real PostgreSQL proxy between a scripted client and a typed fake database; then everything is read back by the owner or by a client without keys. Oracles: wire and store confidentiality (markers, NULL/empty preserved), owner reads equal the model (decoded by an independent codec as the described type), keyless reader never gets a marker, uncovered columns/statements unchanged. Non-trivial = a write to a protected column followed by a read of it")
-	hx.Checks(300, 2500)
+	R.Rule("TestSessions", "session program = generated encryptor configuration (1-2 tables, 2-5 columns of kinds plain/enc/search/mask/token/typed with envelopes, declared types, failure policies, per-column client) + 1-8 statements (INSERT with column list / schema order / multi-row / casts / RETURNING, with ON CONFLICT DO NOTHING or DO UPDATE SET c = literal | placeholder | the placeholder of VALUES again | EXCLUDED.c | DEFAULT | t.c on keys that exist or not; UPDATE with several SET items mixing literals, placeholders, DEFAULT and columns; DELETE [RETURNING]; conditions on the key, a searchable or a consistently tokenized column as literal or placeholder; INSERT ... SELECT of one row inside a table or between uncovered columns of two tables; SELECT star / list / aliases [WHERE id]; re-execution of a prepared SELECT / UPDATE / DELETE / upsert after other statements) over the simple or the extended protocol (text/binary parameters, text/binary results, declared or inferred parameter types, optional Describe), run through acra's real PostgreSQL proxy between a scripted client and a typed fake database; then everything is read back by the owner or by a client without keys. Oracles: wire and store confidentiality (markers, NULL/empty preserved), the database holds exactly the rows of the model (upserts in place, deletes), owner reads and RETURNING equal the model (decoded by an independent codec as the described type), keyless reader never gets a marker, uncovered columns/statements unchanged. Non-trivial = a write to a protected column followed by a read of it")
+	hx.Checks(800, 2500)
 	rapid.Check(t, func(rt *rapid.T) {
 		c := genCase(rt)
 		vs, classes, nt := Check(c)
